@@ -78,7 +78,7 @@ func init() {
 		DesignRef:  "4/C01",
 		Rule:       "case = generated history of 5-80 entries (clients, operators, services link with pseudo-clients, config changes, message-of-death entries, generated timestamps) run on 3 instances; non-trivial = some entry produced >=2 replies AND some iterated map held >=2 elements (channel with >=2 members, >=2 pseudo-clients, >=2 bans, session in >=2 channels); distinct = hash of the entry list",
 		Assumptions: []string{"instances are created with the same network name; numeric 003 is the only tolerated difference"},
-		Units:      []unit{ircUnit("ircserver", "^TestVerifC01$", 30000, 400000)},
+		Units:      []unit{ircUnit("ircserver", "^TestVerifC01$", 30000, 400000), mainUnit("fsm", "^TestVerifC01Main$", 1600, 40000)},
 	})
 	props = append(props, prop{
 		ID: "C03", Title: "state serialization is complete", Level: "exploration",
@@ -161,12 +161,13 @@ func init() {
 		LevelNote:  "Strings are valid UTF-8 (protobuf strings must be); recipient maps are true-valued as every producer writes them.",
 		Technique:  "property-based testing (rapid): round-trip / differential / fixpoint oracles; native fuzzing of the decoders in the thorough tier",
 		DesignRef:  "4/C18",
-		Rule:       "messages: all 9 types, zero/small/random/max integers, texts from empty to 2.4 kB incl. control and multi-byte characters, 0-3 servers, non-trivial = >=3 non-zero optional fields; batches: 0-5 messages with 0-5 recipients, non-trivial = >=2 messages and one with >=2 recipients; log entries: all log types through all three writers in both modes, non-trivial = >=3 of term/extensions/append time/data/type non-zero; distinct = hash of the value",
+		Rule:       "messages: all 9 types, zero/small/random/max integers, texts from empty to 2.4 kB incl. control and multi-byte characters, 0-3 servers, non-trivial = >=3 non-zero optional fields; batches: 0-5 messages with 0-5 recipients, non-trivial = >=2 messages and one with >=2 recipients; log entries: all log types through all three writers in both modes, non-trivial = >=3 of term/extensions/append time/data/type non-zero; package main: generated histories applied through FSM.Apply with generated term/extensions/append time, then text-log dump compared row by row and snapshot+persist+restore compared entry by entry, non-trivial = an entry with extensions and >=2 client lines; distinct = hash of the value",
 		Assumptions: []string{"text fields are valid UTF-8"},
 		Units: []unit{
 			{Name: "messages", Pkg: "internal/robust", Harness: "robust", Run: "^TestVerifC18Messages$", Rapid: true, Quick: 60000, Thorough: 3000000, QuickTimeoutS: 600, ThoroughTimeoutS: 3000},
 			{Name: "batches", Pkg: "internal/outputstream", Harness: "outputstream", Run: "^TestVerifC18Batches$", Rapid: true, Quick: 60000, Thorough: 3000000, QuickTimeoutS: 600, ThoroughTimeoutS: 3000},
 			{Name: "logentries", Pkg: "internal/raftstore", Harness: "raftstore", Run: "^TestVerifC18LogEntries$", Rapid: true, Quick: 3000, Thorough: 60000, QuickTimeoutS: 600, ThoroughTimeoutS: 3000},
+			mainUnit("fsm", "^TestVerifC18Main$", 800, 16000),
 		},
 	})
 }
